@@ -36,6 +36,14 @@ const (
 )
 
 func anyPreState(hasDoc bool) *protocol.ResolutionModel {
+	rm := anyPreState0(hasDoc)
+	if hasDoc && verifrt.Choose("pre-state-doc-empty", 2) == 1 {
+		rm.Doc = document.Document{} // existing but empty document (after a degraded create/recover)
+	}
+	return rm
+}
+
+func anyPreState0(hasDoc bool) *protocol.ResolutionModel {
 	rm := &protocol.ResolutionModel{
 		CreatedTime:                    verifrt.AnyU64("rm-created"),
 		UpdatedTime:                    verifrt.AnyU64("rm-updated"),
